@@ -11,7 +11,7 @@ func baseOpts() GenOpts {
 	o := GenOpts{MaxUnits: 10, MinUnits: 1, MaxFiles: 3, MaxStmts: 3, MaxRows: 4, MaxCols: 10, MaxTables: 3,
 		IgnorableGap: 6, Rare: true}
 	o.UnitWeights = [numUnitKinds]int{uTxXID: 6, uTxCommit: 3, uDDL: 2, uAutoRows: 2, uStmtDML: 1,
-		uTxRollback: 0, uUnknownStmt: 1, uIgnorable: 1, uRotate: 1}
+		uTxRollback: 1, uUnknownStmt: 1, uIgnorable: 1, uRotate: 1}
 	o.Prof = genProfile{MaxStr: 24}
 	return o
 }
@@ -135,6 +135,19 @@ func genScenarioC02(t *Tape, thorough bool, forced []unitKind) *Scenario {
 		a.Stream.Kind = stopNone
 	}
 	sc.Attempts = []AttemptPlan{a}
+	if forced == nil && cs.Chance(1, 5) {
+		// the handler refuses one transaction, the application steps over it
+		// (SetBinlogPosition to the refused transaction's end label) and streams on:
+		// the grouping of what follows must not depend on how the first call ended
+		exp, _ := h.Model(sc.Start)
+		var f AttemptPlan
+		genPolicy(t.S("policy"), &f)
+		fillFault(cs, h, stopHandlerErr, cs.N(len(exp)+1), &f)
+		f.Stream.Heartbeat, f.Stream.HeartbeatAnywhere, f.Stream.hbSeed = a.Stream.Heartbeat, a.Stream.HeartbeatAnywhere, a.Stream.hbSeed
+		f.ErrorCalls = 1
+		a.SkipRefused = true
+		sc.Attempts = []AttemptPlan{f, a}
+	}
 	return sc
 }
 
@@ -431,6 +444,14 @@ func fillFault(s *Stream, h *History, kind stopKind, at int, p *AttemptPlan) {
 		secondGarbage(s, &p.Stream)
 	case stopUnsupportedEvent:
 		p.Stream = StreamPlan{Kind: kind, AtPacket: at, BadType: []byte{evRowsQuery, evIntVar, evRand}[s.N(3)]}
+		if s.Chance(1, 2) {
+			// an event of a type the library decodes, with a body it cannot decode
+			p.Stream.BadVariant = 1 + s.N(6)
+			p.Stream.BadBytes = s.Bytes(s.N(31))
+			if p.Stream.AtPacket < 2 {
+				p.Stream.AtPacket = 2 // behind the format description (a rotate in front of it is skipped unread)
+			}
+		}
 		secondGarbage(s, &p.Stream)
 	case stopCancel:
 		p.CancelAfter = at
@@ -446,6 +467,14 @@ func fillFault(s *Stream, h *History, kind stopKind, at int, p *AttemptPlan) {
 		p.HandshakeCut = s.N(90)
 	}
 	p.BlockedAtStop = s.Chance(1, 3)
+	switch kind {
+	case stopFIN, stopRST, stopShortPacket, stopBadSeq, stopERR, stopEOF, stopInvalidEvent, stopUnsupportedEvent,
+		stopHandlerErr, stopMapperErr, stopMapperMiscount:
+		// a caller without any way to cancel (context.Background())
+		if !p.EnvCancels && s.Chance(1, 6) {
+			p.NoCancelCtx = true
+		}
+	}
 }
 
 // secondGarbage: a bad connection rarely sends one bad packet. A third of the
@@ -531,9 +560,16 @@ func genFaultScenario(t *Tape, o *GenOpts, em faultEmphasis) *Scenario {
 		if em.FreshChance > 0 && i > 0 && fs.Chance(1, em.FreshChance) {
 			p.FreshStreamer = true
 		}
+		if i > 0 && sc.Attempts[i-1].Stop == stopHandlerErr && fs.Chance(1, 3) {
+			p.SkipRefused = true
+		}
 		sc.Attempts = append(sc.Attempts, p)
 	}
-	sc.Attempts = append(sc.Attempts, cleanAttempt(cs, t.S("policy")))
+	last := cleanAttempt(cs, t.S("policy"))
+	if sc.Attempts[nf-1].Stop == stopHandlerErr && fs.Chance(1, 3) {
+		last.SkipRefused = true
+	}
+	sc.Attempts = append(sc.Attempts, last)
 	return sc
 }
 
